@@ -90,7 +90,9 @@ def main(tier, args):
     cfgs = QUICK if tier == "quick" else THOROUGH
     t_build = time.time() - t0
     budget = float(os.environ.get("VERIF_DEADLINE_S", "85" if tier == "quick" else "1300"))
-    env = {"C18_DEADLINE_AT": "%.0f" % (t0 + budget), "VERIF_DEADLINE_S": str(budget)}
+    # the budget starts when the build is done: on an overloaded machine the build alone once took longer than the budget and the run
+    # explored nothing (states=0, every process capped) - quiet, but vacuous
+    env = {"C18_DEADLINE_AT": "%.0f" % (time.time() + budget), "VERIF_DEADLINE_S": str(budget)}
     res = vf.Result(); log = open(vf.BUILD + "/C18/log.txt", "w")
     # verdict: plain build (reference model + invariants)
     vf.run_procs(res, cmds(plain, cfgs, args.only), env=env, log=log)
